@@ -305,7 +305,32 @@ class SxStr(metaclass=_StrMeta):
 # ----------------------------------------------------------------------------- table lists
 
 class SxTable(list):
-    """list of ints whose lookup with a symbolic index builds a balanced ite tree."""
+    """list of ints whose lookup with a symbolic index builds a z3 term: an XOR of per-bit
+    contributions when the table is XOR-linear (checked exhaustively over the table: T[0]=0 and
+    T[i] = xor of T[2^k] over the set bits of i — true of CRC tables), else a balanced ite tree."""
+
+    def _linear_basis(self):
+        n = len(self)
+        key = (n, hash(tuple(list.__iter__(self))))
+        if getattr(self, "_lin_key", None) == key:
+            return self._lin
+        lin = None
+        if n >= 2 and n & (n - 1) == 0 and all(type(v) is int and v >= 0 for v in list.__iter__(self)):
+            bits = n.bit_length() - 1
+            basis = [list.__getitem__(self, 1 << k) for k in range(bits)]
+            ok = list.__getitem__(self, 0) == 0
+            if ok:
+                for i in range(n):
+                    acc = 0
+                    for k in range(bits):
+                        if (i >> k) & 1:
+                            acc ^= basis[k]
+                    if acc != list.__getitem__(self, i):
+                        ok = False
+                        break
+            lin = basis if ok else None
+        self._lin_key, self._lin = key, lin
+        return lin
 
     def __getitem__(self, i):
         if isinstance(i, SymInt):
@@ -317,6 +342,12 @@ class SxTable(list):
             vals = list.__getitem__(self, slice(lo_i, hi_i + 1))
             if not all(isinstance(v, int) for v in vals):
                 return list.__getitem__(self, i.__index__())
+            basis = self._linear_basis()
+            if basis is not None:
+                acc = _bv(0)
+                for k, bk in enumerate(basis):
+                    acc = acc ^ z3.If(z3.Extract(k, k, i.e) == z3.BitVecVal(1, 1), _bv(bk), _bv(0))
+                return _mk(acc, 0, (1 << max(vals).bit_length()) - 1)
 
             def tree(a, b):
                 if a == b:
